@@ -1,6 +1,32 @@
 from ._expr_common import run_expr_prop
+from .. import coro_check, mt_check, core
 
 
 def run(tier, seed, verdict):
-    cov, assume = run_expr_prop("C11", tier, seed, verdict, variants=("asan20d",))
+    # fault enumeration for programs containing via(): the hop onto the scheduler must happen on the exception paths too
+    cov, assume = run_expr_prop("C11", tier, seed, verdict, variants=("asan20d",), faults=True, fault_ops=("via",),
+                                fault_scenarios=4 if tier == "quick" else 12,
+                                extra_rule="programs containing via() additionally run with each throwable point of their "
+                                "first scenarios made to throw (rule: via(S, sch) completes on sch's context unless its "
+                                "completion sender could not be connected).")
+    # "a task<> resumes on its scheduler after every co_await": (a) det: the root completion of every generated task plan
+    # must carry the receiver scheduler's context tag (task<> declares is_always_scheduler_affine); (b) mt: every resumption
+    # of a task body / cleanup action in harness/src/coromt.cpp must run on the thread of the task's timed context even when
+    # the stop request comes from another context's thread
+    n, budget = (12, 40) if tier == "quick" else (100, 100)
+    cr = coro_check.CoroRun(seed, n, budget, "asan20d")
+    cr.build()
+    cr.execute({"C11": verdict})
+    c2 = cr.coverage()
+    res = mt_check.MtResult()
+    it = 800 if tier == "quick" else 30000
+    a = [["seed=%d" % (seed * 100 + 50 + i), "iters=%d" % it, "perturb=%d" % (i % 2)] for i in range(3 if tier == "quick" else 8)]
+    mt_check.run_mt("C11", "coromt", "asan20d", a, verdict, res, timeout=1800, accept=("C11",))
+    core.require_observed(verdict, [k for k in ("outcome_value", "outcome_done") if not res.stats.get(k)], "coromt")
+    cov["coroutine_scenarios"] = c2["evaluations"]
+    cov["coroutine_mt_rounds"] = res.stats.get("rounds_total", 0)
+    cov["coroutine_mt_steps_checked_for_thread"] = res.stats.get("steps_run", 0)
+    cov["evaluations"] += c2["evaluations"] + res.stats.get("rounds_total", 0)
+    cov["rule"] += (" Additionally %d task<> plan sets (root completion context) and %d multi-threaded task rounds (thread of "
+                    "every resumption)." % (n, res.stats.get("rounds_total", 0)))
     return cov, assume, "exploration"
